@@ -297,6 +297,24 @@ type muxRoute struct {
 
 // muxChain decodes a method chain on a gorilla/mux router or route.
 func muxChain(pkg *packages.Package, e ast.Expr) (rt muxRoute, ok bool) {
+	return muxChainEnv(pkg, e, nil)
+}
+
+// muxChainEnv is muxChain inside a loop over a table of routes: env gives,
+// for the loop variable, the expression each field has in the current row.
+func muxChainEnv(pkg *packages.Package, e ast.Expr, env map[types.Object]map[string]ast.Expr) (rt muxRoute, ok bool) {
+	sub := func(a ast.Expr) ast.Expr {
+		if se, isSel := ast.Unparen(a).(*ast.SelectorExpr); isSel && env != nil {
+			if id, isID := ast.Unparen(se.X).(*ast.Ident); isID {
+				if row, bound := env[pkg.TypesInfo.ObjectOf(id)]; bound {
+					if v, has := row[se.Sel.Name]; has {
+						return v
+					}
+				}
+			}
+		}
+		return a
+	}
 	for {
 		call, isCall := ast.Unparen(e).(*ast.CallExpr)
 		if !isCall {
@@ -315,22 +333,22 @@ func muxChain(pkg *packages.Package, e ast.Expr) (rt muxRoute, ok bool) {
 		}
 		switch se.Sel.Name {
 		case "Path":
-			rt.path, _ = constStr(pkg, call.Args[0])
+			rt.path, _ = constStr(pkg, sub(call.Args[0]))
 			rt.pos = call.Pos()
 		case "PathPrefix":
-			rt.path, _ = constStr(pkg, call.Args[0])
+			rt.path, _ = constStr(pkg, sub(call.Args[0]))
 			rt.prefix = true
 			rt.pos = call.Pos()
 		case "HandlerFunc", "Handler":
-			rt.handler = call.Args[0]
+			rt.handler = sub(call.Args[0])
 		case "Methods":
 			for _, a := range call.Args {
-				if s, ok := constStr(pkg, a); ok {
+				if s, ok := constStr(pkg, sub(a)); ok {
 					rt.methods = append(rt.methods, s)
 				}
 			}
 		case "Name":
-			rt.name, _ = constStr(pkg, call.Args[0])
+			rt.name, _ = constStr(pkg, sub(call.Args[0]))
 		}
 		e = se.X
 	}
@@ -361,6 +379,36 @@ func r123(c *Ctx, r *R) {
 					}
 				}
 			}
+		case *ast.RangeStmt:
+			// routes kept in a table and registered in a loop: one route per
+			// row, read like the statements the loop replaces
+			v, isID := x.Value.(*ast.Ident)
+			rows, _ := astTable(pkg, x.X, 0)
+			if !isID || len(rows) == 0 {
+				return true
+			}
+			obj := pkg.TypesInfo.ObjectOf(v)
+			for _, st := range x.Body.List {
+				es, ok := st.(*ast.ExprStmt)
+				if !ok {
+					continue
+				}
+				for _, row := range rows {
+					rt, ok := muxChainEnv(pkg, es.X, map[types.Object]map[string]ast.Expr{obj: row})
+					if !ok || rt.handler == nil {
+						continue
+					}
+					if id, isID := ast.Unparen(rt.base).(*ast.Ident); isID && sub != nil && pkg.TypesInfo.ObjectOf(id) == sub {
+						routes = append(routes, rt)
+					} else if rt.prefix && rt.path == "/" {
+						cp := rt
+						catchAll = &cp
+					} else {
+						routes = append(routes, rt)
+					}
+				}
+			}
+			return false
 		case *ast.ExprStmt:
 			rt, ok := muxChain(pkg, x.X)
 			if !ok || rt.handler == nil {
@@ -541,4 +589,126 @@ func r124(c *Ctx, r *R) {
 		}
 	}
 	r.Check(okDel, "slash:delegates", g.Pos(), "the original handler is called with the same writer and request", "slashHandler does not delegate to the original handler")
+}
+
+// astTable reads e as a table: a slice/array literal of structs, written in
+// place, returned by a function of the same package, or kept in a variable.
+// Each row maps field names to the expressions given for them.
+func astTable(pkg *packages.Package, e ast.Expr, depth int) ([]map[string]ast.Expr, *types.Struct) {
+	if depth > 3 {
+		return nil, nil
+	}
+	e = ast.Unparen(e)
+	switch x := e.(type) {
+	case *ast.CompositeLit:
+		t := pkg.TypesInfo.TypeOf(x)
+		if t == nil {
+			return nil, nil
+		}
+		var elem types.Type
+		switch u := t.Underlying().(type) {
+		case *types.Slice:
+			elem = u.Elem()
+		case *types.Array:
+			elem = u.Elem()
+		default:
+			return nil, nil
+		}
+		if p, ok := elem.Underlying().(*types.Pointer); ok {
+			elem = p.Elem()
+		}
+		st, ok := elem.Underlying().(*types.Struct)
+		if !ok {
+			return nil, nil
+		}
+		var rows []map[string]ast.Expr
+		for _, el := range x.Elts {
+			if kv, ok := el.(*ast.KeyValueExpr); ok {
+				el = kv.Value
+			}
+			el = ast.Unparen(el)
+			if u, ok := el.(*ast.UnaryExpr); ok && u.Op == token.AND {
+				el = ast.Unparen(u.X)
+			}
+			cl, ok := el.(*ast.CompositeLit)
+			if !ok {
+				return nil, nil
+			}
+			row := map[string]ast.Expr{}
+			for i, f := range cl.Elts {
+				if kv, ok := f.(*ast.KeyValueExpr); ok {
+					if id, ok := kv.Key.(*ast.Ident); ok {
+						row[id.Name] = kv.Value
+					}
+				} else if i < st.NumFields() {
+					row[st.Field(i).Name()] = f
+				}
+			}
+			rows = append(rows, row)
+		}
+		return rows, st
+	case *ast.CallExpr:
+		fn := calleeObj(pkg, x)
+		if fn == nil || fn.Pkg() != pkg.Types {
+			return nil, nil
+		}
+		for _, f := range pkg.Syntax {
+			for _, d := range f.Decls {
+				fd, ok := d.(*ast.FuncDecl)
+				if !ok || fd.Body == nil || pkg.TypesInfo.Defs[fd.Name] != types.Object(fn) {
+					continue
+				}
+				var rets []*ast.ReturnStmt
+				ast.Inspect(fd.Body, func(n ast.Node) bool {
+					if _, isLit := n.(*ast.FuncLit); isLit {
+						return false
+					}
+					if rs, ok := n.(*ast.ReturnStmt); ok {
+						rets = append(rets, rs)
+					}
+					return true
+				})
+				if len(rets) != 1 || len(rets[0].Results) != 1 {
+					return nil, nil
+				}
+				return astTable(pkg, rets[0].Results[0], depth+1)
+			}
+		}
+	case *ast.Ident:
+		obj := pkg.TypesInfo.ObjectOf(x)
+		if obj == nil {
+			return nil, nil
+		}
+		var def ast.Expr
+		n := 0
+		for _, f := range pkg.Syntax {
+			ast.Inspect(f, func(nd ast.Node) bool {
+				switch y := nd.(type) {
+				case *ast.AssignStmt:
+					if len(y.Lhs) == len(y.Rhs) {
+						for i, l := range y.Lhs {
+							if id, ok := l.(*ast.Ident); ok && pkg.TypesInfo.ObjectOf(id) == obj {
+								def = y.Rhs[i]
+								n++
+							}
+						}
+					}
+				case *ast.ValueSpec:
+					if len(y.Names) == len(y.Values) {
+						for i, id := range y.Names {
+							if pkg.TypesInfo.ObjectOf(id) == obj {
+								def = y.Values[i]
+								n++
+							}
+						}
+					}
+				}
+				return true
+			})
+		}
+		if n == 1 {
+			return astTable(pkg, def, depth+1)
+		}
+	}
+	return nil, nil
 }
